@@ -182,7 +182,13 @@ Definition bu_summaries (p : iprog) (sums : nat -> option env) : list summ :=
 Definition bu_validate (p : iprog) (voff : N) (entries : list nat) (init : env)
            (tpre tpost : nat -> nat -> env) (S : list summ)
            (delay desc efuel : nat) (wtos : nat -> wto) : bool :=
-  let mk := mk_cert p voff S delay desc efuel wtos in
+  (* a called function without summary (main, a member of a recursive component: fixes/inter-7):
+     its callsites forget the lhs variables; the certificate uses the trivial summary (top, top),
+     justified by the context that starts from top.  Untrusted: ig_check decides *)
+  let called := flat_map (cg_succs p) (seq 0 (length p)) in
+  let S' := S ++ flat_map (fun f => if nmem f called && negb (existsb (fun sm => Nat.eqb (s_fn sm) f) S)
+                                    then [mkSumm f e_top e_top] else []) (seq 0 (length p)) in
+  let mk := mk_cert p voff S' delay desc efuel wtos in
   ig_check p voff entries init tpre tpost
            (map (fun f => mkCert f (tpre f 0) (tpre f) (tpost f)) (seq 0 (length p)))
-           (map (fun sm => (sm, mk (s_fn sm) (s_pre sm))) S).
+           (map (fun sm => (sm, mk (s_fn sm) (s_pre sm))) S').
